@@ -11,6 +11,10 @@ CHECKS = {
         technique="stream laws (declarative TLA+) model-checked on the code-shaped TLA+ parser for all strings within bounds; the same strings plus fuzzed/corpus inputs run through the real iterator and the recorded item streams validated by TLC against the laws",
         text="TLC enumerates every byte string (<=5 quick / <=6 thorough over 9 delimiter symbols) and every token string (<=4 / <=5 over 14 tokens incl. the sourceFile prefix), checks item count, no-terminator-in-field and the resynchronisation law at every LF split on the specification's parser; every string up to the emit bound and seeded byte soups, mutated files and corpus files are fed to the real iterator whose recorded item streams must satisfy the same TLA+ laws.",
         design="4 C06", note="L4 read on Ok records and non-blank error lines; bounded exhaustive + sampled; trusted: TLC, harness event recorder (canary-checked)."),
+    "C19": dict(
+        technique="TLA+ folds (declarative) vs scanning step machines model-checked by TLC; TLC-generated files (49/50/51-item window boundary, header variants) replayed into is_valid/has_line_info/summary; real answers on generated/corpus files validated by TLC against the folds over the recorded item stream",
+        text="TLC checks the three code-shaped scanning machines against the declarative folds for every abstract item stream within the bound (window crossed exhaustively with Window=3), generates concrete files around the real 50-item window with last-header-wins and u32 min_api variants whose expected answers the folds assign, and validates the real answers for generated, mutated and corpus files against the folds applied to the item stream the library's own iterator yielded.",
+        design="4 C19", note="Item abstraction recorded by the harness; parser behaviour itself is C05/C06. Trusted: TLC, Json module, harness (canary-checked)."),
 }
 
 NOT_YET = {}
